@@ -304,8 +304,15 @@ class WMatrix:
     """stand-in for sympy.Matrix over witness expressions: a column of expressions, its Jacobian with respect to a list of symbols, and entry
     access -- an entry of the Jacobian is an expression over the same symbols as the differentiated one (what the substitution lists must cover)"""
 
-    def __init__(self, rows, cols=None):
-        self.rows = list(rows)
+    def __init__(self, *a):
+        # Matrix(list) | Matrix(rows, cols, flat list) for a column | internal (rows, symbols)
+        if len(a) == 3 and isinstance(a[0], int) and isinstance(a[1], int):
+            if a[1] != 1:
+                raise TypeError("witness Matrix: only column matrices are modelled")
+            a = (list(a[2]),)
+        rows = a[0]
+        cols = a[1] if len(a) > 1 else None
+        self.rows = [r[0] if isinstance(r, (list, tuple)) and len(r) == 1 else r for r in rows]
         self.cols = None if cols is None else list(cols)
 
     def jacobian(self, symbols):
